@@ -373,8 +373,8 @@ func (e *Engine) call(fn *ssa.Function, s *St, in *ssa.Call, ip int) (next []suc
 			return set(BoolV{tFalse})
 		}
 		return set(BoolV{And(r, bytesEq(msg.b, e.sigMsg[sig.b[0].id].b))})
-	case ipfx + "native/ledger.CurrentIndex":
-		return set(IntV{s.height})
+	case ipfx + "native/ledger.CurrentIndex": // neo-go: the latest STORED block; the persisting block (the one carrying the transaction, or the fake next one of a test invocation) is not counted
+		return set(IntV{Sub(s.height, I(1))})
 	case ipfx + "native/neo.BalanceOf":
 		return set(IntV{I(0)}) // the test contracts hold no NEO: no GAS is claimed
 	case ipfx + "native/neo.Vote": // the native NEO state is not modelled: an arbitrary outcome
